@@ -10,7 +10,7 @@
 (* from_binary.                                                               *)
 EXTENDS RowFormat, TraceBase
 
-VARIABLES l, opts, rows
+VARIABLES l, opts, fam, dn, rows
 
 NewRows(ev) ==
   [i \in 1..Len(ev.bytes) |-> [k |-> [c \in 1..Len(ev.keys) |-> ev.keys[c][i]], b |-> ev.bytes[i]]]
@@ -19,18 +19,66 @@ ConvShapeOK(ev) ==
   /\ Len(ev.keys) = Len(opts)
   /\ \A c \in 1..Len(ev.keys) : Len(ev.keys[c]) = Len(ev.bytes)
 
-(* known findings (known_findings.txt), identified narrowly                   *)
-KF(ev) == ""
+(***************************************************************************)
+(* Known findings (known_findings.txt).                                     *)
+(*                                                                         *)
+(* C11-union-descending-child-not-inverted: for a top-level Union field     *)
+(* with descending = true the type id byte is inverted but the child bytes   *)
+(* are not (lib.rs encode_column, Encoder::Union), so values of one type id  *)
+(* come out ascending with nulls on the side opposite to nulls_first.  The   *)
+(* predicate is exact: the event is attributed to the finding only if every  *)
+(* new pair obeys F1/F2 for *that* order of the union fields; any other      *)
+(* deviation is still rejected.                                              *)
+(*                                                                         *)
+(* C11-dense-union-decode-type-id-index: convert_rows indexes the per-child  *)
+(* counters of a Dense union by type id instead of child position            *)
+(* (lib.rs decode_column, "build offsets for dense unions") and panics when  *)
+(* a type id is not a valid child position.                                  *)
+(***************************************************************************)
+UnionDescField(c) == fam[c] = "union" /\ opts[c].desc
+DefectCmpU(a, b, o) ==
+  IF a.i # b.i THEN IntCmp(b.i, a.i) ELSE CmpV(a.c[1], b.c[1], ChildOpt(o))
+RECURSIVE DefectLexFrom(_, _, _)
+DefectLexFrom(r1, r2, i) ==
+  IF i > Len(opts) THEN 0
+  ELSE LET c == IF UnionDescField(i) THEN DefectCmpU(r1[i], r2[i], opts[i]) ELSE CmpV(r1[i], r2[i], opts[i]) IN
+       IF c # 0 THEN c ELSE DefectLexFrom(r1, r2, i + 1)
+DefectPairsOK(all, lo, hi) ==
+  \A i \in lo..hi : \A j \in 1..i :
+    LET c == DefectLexFrom(all[i].k, all[j].k, 1) IN
+    /\ ByteCmp(all[i].b, all[j].b) = c
+    /\ (all[i].b = all[j].b) <=> (c = 0)
+
+KFConv(all, lo, hi) ==
+  IF (\E c \in 1..Len(opts) : UnionDescField(c)) /\ DefectPairsOK(all, lo, hi)
+  THEN "C11-union-descending-child-not-inverted" ELSE ""
+KFDec(ev) ==
+  IF ev.err /\ (\E c \in 1..Len(opts) : dn[c]) /\ ev.sel # <<>>
+  THEN "C11-dense-union-decode-type-id-index" ELSE ""
+
+(***************************************************************************)
+(* Refinement information (never a rejection): for a converter with a single *)
+(* variable-length byte field the real bytes are compared with the byte-level *)
+(* model EncVar of RowFormat.tla at the real block sizes (8-byte mini blocks, *)
+(* 4 of them, then 32-byte blocks) -- the model whose scaled-down instance    *)
+(* MC_RowFormat checks.  A difference prints a REFINEMENT-INFO line.          *)
+(***************************************************************************)
+RealP == [mini |-> 8, count |-> 4]
+RefinesModel(ev) ==
+  (Len(opts) = 1 /\ fam[1] \in {"bytes", "view"} /\ ~ev.err /\ ConvShapeOK(ev)) =>
+     \A i \in 1..Len(ev.bytes) : ev.bytes[i] = EncVar(ev.keys[1][i], opts[1], RealP)
+RefinementInfo(ev) ==
+  IF RefinesModel(ev) THEN TRUE ELSE PrintT(<<"REFINEMENT-INFO", l, "row bytes differ from the model encoding", ev.ty>>)
 
 Conv(ev) ==
   IF ev.err \/ ~ConvShapeOK(ev)
-  THEN /\ JudgeKF(FALSE, l, <<"conv", ev.ty, "error or malformed result">>, KF(ev))
+  THEN /\ Judge(FALSE, l, <<"conv", ev.ty, "error or malformed result">>)
        /\ UNCHANGED rows
   ELSE LET all == rows \o NewRows(ev)
            lo == Len(rows) + 1
            hi == Len(all)
        IN /\ JudgeKF(PairsOK(all, lo, hi, opts), l,
-                     <<"conv F1/F2", ev.ty, BadPair(all, lo, hi, opts)>>, KF(ev))
+                     <<"conv F1/F2", ev.ty, BadPair(all, lo, hi, opts)>>, KFConv(all, lo, hi))
           /\ rows' = all
 
 Ord(ev) ==
@@ -42,24 +90,25 @@ Ord(ev) ==
         l, <<"ord F5", ev.ty>>)
 
 Dec(ev) ==
-  JudgeKF(~ev.err /\ DecodedOK(ev.keys, ev.sel, rows, Len(opts)), l, <<"dec F3", ev.via, ev.ty>>, KF(ev))
+  JudgeKF(~ev.err /\ DecodedOK(ev.keys, ev.sel, rows, Len(opts)), l, <<"dec F3", ev.via, ev.ty>>, KFDec(ev))
 
 Bin(ev) ==
   JudgeKF(/\ ~ev.err
           /\ Len(ev.bytes) = Len(ev.sel)
           /\ \A k \in 1..Len(ev.sel) : ev.bytes[k] = rows[ev.sel[k] + 1].b
           /\ DecodedOK(ev.keys, ev.sel, rows, Len(opts)),
-          l, <<"bin F4", ev.ty>>, KF(ev))
+          l, <<"bin F4", ev.ty>>, KFDec(ev))
 
-Init == l = 1 /\ opts = <<>> /\ rows = <<>>
+Init == l = 1 /\ opts = <<>> /\ fam = <<>> /\ dn = <<>> /\ rows = <<>>
 Next == /\ l <= Len(Rec)
         /\ l' = l + 1
         /\ LET ev == Rec[l] IN
            CASE ev.op = "new"  -> /\ opts' = [c \in 1..Len(ev.opts) |-> Opt(ev.opts[c][1], ev.opts[c][2])]
+                                  /\ fam' = ev.fam /\ dn' = ev.dn
                                   /\ rows' = <<>>
-             [] ev.op = "conv" -> Conv(ev) /\ UNCHANGED opts
-             [] ev.op = "ord"  -> Ord(ev) /\ UNCHANGED <<opts, rows>>
-             [] ev.op = "dec"  -> Dec(ev) /\ UNCHANGED <<opts, rows>>
-             [] ev.op = "bin"  -> Bin(ev) /\ UNCHANGED <<opts, rows>>
-Spec == Init /\ [][Next]_<<l, opts, rows>>
+             [] ev.op = "conv" -> Conv(ev) /\ RefinementInfo(ev) /\ UNCHANGED <<opts, fam, dn>>
+             [] ev.op = "ord"  -> Ord(ev) /\ UNCHANGED <<opts, fam, dn, rows>>
+             [] ev.op = "dec"  -> Dec(ev) /\ UNCHANGED <<opts, fam, dn, rows>>
+             [] ev.op = "bin"  -> Bin(ev) /\ UNCHANGED <<opts, fam, dn, rows>>
+Spec == Init /\ [][Next]_<<l, opts, fam, dn, rows>>
 =============================================================================
